@@ -44,12 +44,20 @@ def make(client, history, cfg_push):
             # ENABLE_PUSH as seen by `me`: for a server it is the client's (remote) setting,
             # for a client its own acknowledged (local) setting
             if client:
-                if cur == 0:
+                if pending == 'toggled':
+                    # two changes in flight at once, back to `cur`; both acknowledged
+                    me.update_settings({SettingCodes.ENABLE_PUSH: 1 - cur})
+                    me.update_settings({SettingCodes.ENABLE_PUSH: cur})
+                    for _ in range(2):
+                        a = hf.SettingsFrame(0)
+                        a.flags.add('ACK')
+                        me.receive_data(a.serialize())
+                elif cur == 0:
                     me.update_settings({SettingCodes.ENABLE_PUSH: 0})
                     a = hf.SettingsFrame(0)
                     a.flags.add('ACK')
                     me.receive_data(a.serialize())
-                if pending is not None:
+                if pending in (0, 1):
                     me.update_settings({SettingCodes.ENABLE_PUSH: pending})
             else:
                 if cur == 0:
@@ -134,6 +142,10 @@ def make(client, history, cfg_push):
     return h
 
 
+def hist_has_settings(hist):
+    return any(o[0] in ('settings', 'SETTINGS') for o in hist)
+
+
 def h_client_cannot_push(history):
     def h():
         with h2h.native():
@@ -178,7 +190,10 @@ def shards(tier, seed):
                 seen.add(key)
                 hs.append(hist)
         for hist in hs:
-            for cfg in ((1, None), (0, None)) + (((1, 0), (0, 1)) if client else ()):
+            cfgs = ((1, None), (0, None)) + (((1, 0), (0, 1)) if client else ())
+            if client and not hist_has_settings(hist):
+                cfgs = cfgs + ((1, 'toggled'),)
+            for cfg in cfgs:
                 out.append(Shard('push/%s/%s/enable_push=%s%s' % (
                     role, F.hist_name(hist), cfg[0],
                     '' if cfg[1] is None else '/pending=%s' % cfg[1]),
